@@ -168,11 +168,12 @@ class MCMC(Identifiable, Runnable):
             logger.close()
 
         for op in self._operators:
+            count = op._accept + op._reject
             print(
                 op.id,
-                op._accept / (op._accept + op._reject),
+                op._accept / count if count > 0 else float("nan"),
                 op.smoothed_acceptance_rate(),
-                op._accept + op._reject,
+                count,
                 op.tuning_parameter,
             )
 
